@@ -21,6 +21,12 @@ CLAIMED={
    note="Bounds: 3 user accounts + fee collector + staked pool + pos module accounts, one denomination, amounts < 2^61, one operation (two for fee/award blocks) per history. Not yet covered here: gov DAO transfer/burn (see C17 when claimed), ante fee deduction (C03).", ref="§4 C02/C04/C10"),
  "C04": dict(text="Same environment as C02: after stake (keeper and MsgStake handler, new and re-stake after a forced unstake), begin-unstake, maturity at EndBlock, forced unstake, slash in 4 lifecycle stages, awards and fee rewards, the solver decides pool balance == sum of recorded stake of all non-unstaked validators and the exact account/pool/record deltas of staking and unstaking.",
    note="Bounds: 2-3 validators, symbolic stake < 2^60, one operation per history. Direct sends to the pool address are covered by C02's send harness only.", ref="§4 C02/C04/C10"),
+ "C05": dict(text="Bounded symbolic execution of EndBlocker/UpdateTendermintValidators (power index iteration, previous-state power map, no-longer-staked sorting) after histories built with the real handlers and keeper: 2-3 validators with symbolic stakes (ties included), MaxValidators 1-3, EndBlock / one of 8 staking-state changes (stake, begin-unstake, jail, jail+unjail, symbolic slash, forced unstake, jail+unstake+unjail, unstaking+slash+maturity) / EndBlock twice; every batch is applied to a reference model of Tendermint's ValidatorSet applicability rules and the resulting set is compared with the declarative top-N of staked, unjailed validators.",
+   note="Bounds: <= 3 validators, stakes in [10^6, 6*10^6], MaxValidators <= 3, one state change between EndBlocks. Tendermint's own ValidatorSet code is replaced by the reference model in the harness (duplicate key, removal of unknown, negative power). InitGenesis batches are not covered yet.", ref="§4 C05"),
+ "C06": dict(text="Bounded symbolic execution of the pos handlers (MsgStake, MsgBeginUnstake, MsgUnjail), slash, ForceValidatorUnstake and EndBlocker from 6 lifecycle stages reached through the real API with symbolic stake/balance/amount: legal status transitions only, power index == staked-unjailed validators under the key of their current stake, every unstaking validator queued at its completion time, minimum stake held, release and payout at exactly the first EndBlock at or after the completion time (symbolic nanosecond offsets, two validators maturing around the same instant, slash while unstaking, re-queue after a forced unstake).",
+   note="Bounds: 2-3 validators, one message/slash per history (3-4 for the maturity and requeue histories), stake < 2^50. FormatTimeBytes (time key) is replaced by an order-isomorphic encoding: that the real ASCII format orders like time is an assumption (years 0-9999).", ref="§4 C06"),
+ "C09": dict(text="Bounded symbolic execution of handleMsgUnjail/validateUnjailMessage/UnjailValidator/JailValidator/SetStakedValidator and the double-sign path: MsgUnjail from 6 lifecycle stages with symbolic jailed-until offset, tombstone flag, stake above/below a raised minimum, known/unknown sender; jailed validators are absent from the reference Tendermint set from the next update on, regain exactly floor(stake/10^6) after unjail, and a double-sign conviction tombstones for ever (unjail refused for any later block time up to 5000 years).",
+   note="Bounds: 2-3 validators, symbolic stake < 2^50, jailed-until within +-5 s of block time. Downtime as a jailing cause is covered by C08's harnesses, not repeated here.", ref="§4 C09"),
  "C10": dict(text="Bounded symbolic execution of BeginBlocker (rewardFromFees, mintValidatorAwards, mint, SetPreviousProposer) with the real bank: symbolic fees and award amounts, 0-2 awards to the same/different addresses, proposer known / any-stage validator / unknown, two consecutive blocks; exact balances, supply delta, emptied queue and collector are solver-decided.",
    note="Bounds: <= 2 queued awards, fees < 4*10^6, awards < 2^50, 3 accounts.", ref="§4 C10"),
 }
